@@ -21,9 +21,9 @@ ASSUMPTIONS = [
     "reference matcher + hand-written operand table are the trusted base",
     "listings <= 12 instructions; windows <= 5 instructions",
 ]
-LEVELS = ["inst", "inst", "operand", "operand", "deref-or", "or-prefix", "anyorder-dup", "anyorder-varlen", "operand-deref-mix", "operand-deref-mix", "same-op-nested", "operand-or-hexh", "leading-optionals", "mapping-form"]
+LEVELS = ["inst", "inst", "operand", "operand", "deref-or", "or-prefix", "anyorder-dup", "anyorder-varlen", "operand-deref-mix", "operand-deref-mix", "same-op-nested", "operand-or-hexh", "leading-optionals", "mapping-form", "repeated-group"]
 MUTATORS = ["none", "none", "none", "insert-copy", "insert-new", "delete", "replace-copy", "swap", "op-permute", "op-replace"]
-FLOORS = {"level=inst": 0.12, "level=operand": 0.12, "level=deref-or": 0.08, "level=or-prefix": 0.06, "level=anyorder-dup": 0.06, "level=anyorder-varlen": 0.06, "level=operand-deref-mix": 0.08, "level=same-op-nested": 0.05, "level=operand-or-hexh": 0.04, "level=leading-optionals": 0.04, "children-as-mapping": 0.04, "deref-operator-as-mapping": 0.02, "deref-inside-operand-operator": 0.015, "expect=found": 0.25, "near-miss": 0.25, "nested": 0.2}
+FLOORS = {"level=inst": 0.12, "level=operand": 0.12, "level=deref-or": 0.08, "level=or-prefix": 0.06, "level=anyorder-dup": 0.06, "level=anyorder-varlen": 0.06, "level=operand-deref-mix": 0.08, "level=same-op-nested": 0.05, "level=operand-or-hexh": 0.04, "level=leading-optionals": 0.04, "level=repeated-group": 0.03, "children-as-mapping": 0.04, "deref-operator-as-mapping": 0.02, "deref-inside-operand-operator": 0.015, "expect=found": 0.25, "near-miss": 0.25, "nested": 0.2}
 
 
 def budget(tier):
@@ -116,6 +116,58 @@ def cases(draw, max_depth=2):
         if j < n and draw(st.booleans()):
             pattern.append(describe_inst(draw, NV[j], full))
             j += 1
+    elif level == "repeated-group":
+        # operators compose with repetition: a group with a ranged times whose only child carries an exact times (the reachable run
+        # lengths have gaps: $and[x times 2] times 1..2 is two or four x, never three), and an operator macro used twice in one rule,
+        # one use repeated - each use stands for the operator by itself
+        def body_():
+            for _ in range(6):
+                m_, oa_, on_ = draw(instruction_body())
+                if " " not in "".join(oa_):
+                    return [m_, oa_, on_]
+            return ["cltq", [], []]
+
+        A_, X_, Y_, B_ = body_(), body_(), body_(), body_()
+        assume(len({A_[0], X_[0], Y_[0], B_[0]}) == 4)
+        dA_, dX_, dY_, dB_ = (describe_inst(draw, ("0", b_[0], b_[2]), (True, True)) for b_ in (A_, X_, Y_, B_))
+        full = (True, True)
+        case_macros = None
+        ref_pattern = None
+        if draw(st.booleans()):
+            k_in = draw(st.sampled_from([2, 2, 3]))
+            lo_o = draw(st.sampled_from([0, 1, 1]))
+            hi_o = lo_o + draw(st.sampled_from([1, 1, 2]))
+            inner = {list(dX_)[0]: dX_[list(dX_)[0]], "times": k_in} if isinstance(dX_, dict) else {dX_: {"times": k_in}}
+            grp = {draw(st.sampled_from(["$and", "$and", "$and_any_order", "$or"])): [inner], "times": {"min": lo_o, "max": hi_o}}
+            total = draw(st.integers(0, k_in * hi_o + 1))
+            chunks = [A_] + [X_] * total + [B_]
+            pattern = [dA_, grp, dB_]
+        else:
+            op_body = {"$or": [dX_, dY_]}
+            case_macros = [{"name": "@yshift_", "pattern": [op_body]}]
+            t_ = draw(st.sampled_from([2, 2, 3, {"min": 1, "max": 2}]))
+            inv = {"@yshift_": {"times": t_}} if draw(st.booleans()) else {"@yshift_": [], "times": t_}
+            first_plain = draw(st.booleans())
+            n1 = 1 if first_plain else draw(st.integers(1, 3))
+            n2 = draw(st.integers(1, 3)) if first_plain else 1
+            if draw(st.integers(0, 2)) == 0:
+                n1, n2 = n2, n1  # the counts the other way round: what a `times` that leaks to the plain use would accept
+            chunks = [A_] + [draw(st.sampled_from([X_, Y_])) for _ in range(n1)] + [B_] + [draw(st.sampled_from([X_, Y_])) for _ in range(n2)] + [A_]
+            pattern = [dA_] + (["@yshift_", dB_, inv] if first_plain else [inv, dB_, "@yshift_"]) + [dA_]
+            import copy as _copy
+
+            rep_ = {"$and": [_copy.deepcopy(op_body)], "times": t_}
+            ref_pattern = [dA_] + ([_copy.deepcopy(op_body), dB_, rep_] if first_plain else [rep_, dB_, _copy.deepcopy(op_body)]) + [dA_]
+        a_ = 0x401000
+        L = []
+        for m_, oa_, on_ in chunks:
+            L.append([format(a_, "x"), m_, list(oa_), list(on_)])
+            a_ += 3
+        out_ = {"level": level, "mut": "none", "listing": L, "pattern": pattern, "flags": [True, True]}
+        if case_macros:
+            out_["macros"] = case_macros
+            out_["ref_pattern"] = ref_pattern
+        return out_
     elif level == "mapping-form":
         # a window whose items all have an operand list and different names: the children of the sequence (of the whole pattern, of
         # a nested group) can then be written as a YAML mapping - same items, written order
@@ -523,7 +575,14 @@ def evaluate(case):
     ev.subcases = 0
     L, pattern = case["listing"], case["pattern"]
     mn_full, op_full = case["flags"]
-    exp, spans, _ = compare(ev, pattern, L, mn_full, op_full, **({"modes": ("list",)} if case.get("wide") else {}))
+    extra_kw = {"modes": ("list",)} if case.get("wide") else {}
+    if case.get("macros"):
+        # the rule uses macros defined in its own file: judged by the reference on the rule with every use written out by hand
+        from vlib.gen_listing import norm_view as _nv
+        from vlib.refmatch import Ref as _Ref
+
+        extra_kw.update(doc_macros=case["macros"], spans=_Ref(_nv(L), bool(mn_full), bool(op_full)).spans(case["ref_pattern"]))
+    exp, spans, _ = compare(ev, pattern, L, mn_full, op_full, **extra_kw)
     used = _ops_used(pattern, set())
     depth = _depth(pattern)
     ev.tags = [f"level={case['level']}", f"mut={case['mut']}", "expect=found" if exp else "expect=notfound"]
